@@ -12,8 +12,9 @@ META = {
                    'guards come first, every accepted sync re-bases the millisecond reference, and the seconds counter is only '
                    'incremented outside syncNow.',
     'decided': 'modular width discipline of the catch-up loop; 1000 ms <-> 1 s step pairing; sentinel guards; every path of syncNow '
-               'that accepts a value leaves (mEpochSeconds == value, mPrevMillis == clockMillis() of that call, mIsInit) ; '
-               'monotone writes outside syncNow',
+               'that accepts a value leaves (mEpochSeconds == value, mPrevMillis == clockMillis() of that call, mIsInit), where '
+               '"already holds the value" implies initialised because a fresh clock holds the sentinel (in-class initialisers '
+               'folded from the AST); monotone writes outside syncNow',
     'not_decided': 'the equation T + floor((m - m0)/1000) over polling schedules (gaps up to 64,536 ms) as a timing property',
     'assumptions': ['clang 14 parser (host: unsigned long is 64-bit; the rule looks only at the 16-bit conversions)'],
 }
